@@ -2,6 +2,7 @@
 from framework import Failure
 import tiers as T
 import tgops
+import scriptops as SC   # splitTierEntries / spellCheckEntries (DESIGN 11.8)
 
 RULE = ("mutators: breadth-first enumeration of every textgrid state reachable from the empty textgrid within depth d "
         "(quick 3, thorough 5) over a universe of 4 names / 5 tier slots (two different tiers share the name 'w'; one slot "
@@ -16,13 +17,15 @@ ASSUMPTIONS = ["tier-level correctness of crop/eraseRegion/insertSpace/editTimes
 
 case_json = lambda c: c
 case_from_json = lambda j: j
-encode = tgops.encode
-impl = tgops.impl
-render = tgops.render
-oracle = tgops.oracle
+encode = lambda c, enc: SC.encode(c, enc) if SC.is_sc(c) else tgops.encode(c, enc)
+impl = lambda c, objs=None: SC.impl(c) if SC.is_sc(c) else tgops.impl(c, objs)
+render = lambda c, r, enc: SC.render(c, r, enc) if SC.is_sc(c) else tgops.render(c, r, enc)
+oracle = lambda c, r: SC.oracle(c, r) if SC.is_sc(c) else tgops.oracle(c, r)
 
 
 def wants_x(c):
+    if SC.is_sc(c):
+        return SC.wants_x(c)
     return c.get("grid", False)
 
 
@@ -33,6 +36,8 @@ def canon(c, line):
 
 
 def tags(c, r):
+    if SC.is_sc(c):
+        return SC.tags(c, r)
     out = [c["op"], "grid" if c.get("grid") else "dec", "ntiers:%d" % len(c["tg"]["tiers"])]
     if r[0] == "err":
         out.append("err:" + r[1])
@@ -44,6 +49,8 @@ def tags(c, r):
 
 
 def nontrivial(c, r):
+    if SC.is_sc(c):
+        return SC.nontrivial(c, r)
     return len(c["tg"]["tiers"]) > 0
 
 
@@ -107,6 +114,7 @@ def bfs(depth, limit=None, rnd=None):
 
 
 def corpus():
+    yield from SC.corpus()      # S1-1, S1-2 (fixed) and worked examples of splitTierEntries / spellCheckEntries
     g = {"lo": 0.0, "hi": 5.0, "tiers": [{"k": "I", "name": "a", "es": [[1.0, 2.0, "x"]], "lo": 0.0, "hi": 5.0},
                                        {"k": "I", "name": "b", "es": [[1.0, 2.0, "x"]], "lo": 0.0, "hi": 5.0}]}
     wide = {"k": "I", "name": "c", "es": [[1.0, 2.0, "x"]], "lo": 0.0, "hi": 7.0}
@@ -165,6 +173,7 @@ def gen(rnd, tier):
     else:
         yield from bfs(3, limit=40, rnd=rnd)
         nrand = 6000
+    yield from SC.gen(rnd, 4000 if tier == "thorough" else 400)
     for i in range(nrand):
         domain = rnd.choice(["dec", "dec", "grid64"])
         c = gen_edit(rnd, domain)
@@ -172,7 +181,7 @@ def gen(rnd, tier):
         yield c
 
 
-shrink = tgops.shrink_tg
+shrink = lambda c: (tgops.shrink_tg(c) if "tg" in c else iter(()))
 
 
 # random walks of mutators on ONE living Textgrid (harness/living.py): the breadth-first enumeration above rebuilds the
